@@ -10,6 +10,12 @@
 //! describes one cluster, so every run is written as two traces (one per cluster, each introduced by
 //! a `reset` event): clusters are independent, any cross-talk makes one of the projections unacceptable.
 //!
+//! Time is the policy's own: `RetryFail` / `RetrySucceed` / a failing connect call the real back-off code on
+//! real `Instant`s, `Elapse` lets d seconds pass for every backend of the map (both clusters: the event is
+//! recorded in both traces) by moving `last_try` into the past before the next call; windows, try counts and
+//! `can_try()` are only ever read. A run that took longer than `--slack-ms` of real time (which adds to every
+//! age) is performed again, at most 3 times, else dropped (counted in `slow_runs`).
+//!
 //! usage: drive_backends --seed N --runs R --steps S --out trace.ndjson
 //! stdout: {"kind":"violation","class":"panic",...}* {"kind":"summary",...}
 
@@ -21,6 +27,9 @@ use serde_json::{Value, json};
 use vh::c12kit::{NONE, Rng, World, addr_table};
 
 const HCAP: u32 = 1_000_000;
+/// the trace spec's AgeCap (greater than the longest window a budget of 6 can draw: 63 s)
+const AGE_CAP: u64 = 64;
+const ELAPSES: [u64; 10] = [1, 1, 1, 2, 3, 5, 9, 17, 33, 64];
 const IDS: [&str; 4] = ["b1", "b2", "b3", "b4"];
 const STICKIES: [&str; 2] = ["s1", "s2"];
 const POLICIES: [&str; 6] = ["rr", "random", "leastLoaded", "p2c", "hrw", "maglev"];
@@ -37,9 +46,12 @@ struct Run {
     keys: Vec<u64>,
     th_up: u32,
     th_down: u32,
-    /// 0 general, 1 affinity (hrw / maglev, many keyed selections, rare policy changes),
-    /// 2 load (leastLoaded / p2c, many connects and closes)
+    /// 0 general, 1 affinity (hrw / maglev, many keyed selections, the policy object installed again on the
+    /// populated cluster while health flips move the eligible set), 2 load (leastLoaded / p2c, many connects and
+    /// closes), 3 back-off (failures / time / successes / selections on few backends, failure streaks)
     profile: u64,
+    /// the policy the driver installed last, per cluster (to install the same one again, like AddCluster does)
+    installed: BTreeMap<String, (&'static str, &'static str)>,
     /// the cluster the step in progress works on (for the report of a panic)
     cur: String,
     ev: BTreeMap<String, Vec<Value>>,
@@ -70,6 +82,109 @@ impl Run {
         self.log(c, json!({"ev":"Add","id":id,"addr":addr,"backup":backup,"sticky":sticky,"w":w.unwrap_or(100)}));
     }
 
+    fn do_set_policy(&mut self, c: &str, p: &'static str, m: &'static str) {
+        self.w.set_policy(c, p, m);
+        self.installed.insert(c.to_string(), (p, m));
+        self.log(c, json!({"ev":"SetPolicy","policy":p,"metric":m}));
+    }
+
+    fn do_elapse(&mut self, d: u64) {
+        self.w.elapse_all(d);
+        for c in ["c1", "c2"] {
+            self.log(c, json!({"ev":"Elapse","d":d}));
+        }
+    }
+
+    fn do_fail(&mut self, c: &str, o: i64) {
+        self.w.retry_fail(c, o);
+        let (_, wait, _) = self.w.retry_view(c, o);
+        self.log(c, json!({"ev":"RetryFail","oid":o,"w":wait.as_secs()}));
+    }
+
+    fn do_health(&mut self, c: &str, o: i64, up: bool) {
+        let th = if up { self.th_up } else { self.th_down };
+        let ret = self.w.health(c, o, up, th);
+        self.log(c, json!({"ev":"Health","oid":o,"up":up,"th":th,"ret":ret}));
+    }
+
+    fn do_keyed(&mut self, c: &str, k: usize) {
+        let key = if k == 0 { None } else { Some(self.keys[k - 1]) };
+        let o = self.w.keyed(c, key);
+        self.log(c, json!({"ev":"Keyed","key": if k == 0 { NONE } else { k as i64 },"oid":o}));
+    }
+
+    fn do_keyed_all(&mut self, c: &str) {
+        for k in 1..=self.keys.len() {
+            self.do_keyed(c, k);
+        }
+    }
+
+    /// the backends of the cluster that are inside a back-off window right now: (oid, seconds left, rounded up)
+    fn waiting(&self, c: &str) -> Vec<(i64, u64)> {
+        self.w.live(c).into_iter().filter_map(|o| {
+            let (_, wait, age) = self.w.retry_view(c, o);
+            if age < wait { Some((o, (wait - age).as_secs() + 1)) } else { None }
+        }).collect()
+    }
+
+    /// the steps the special profiles are about; false = take a general step
+    fn special_step(&mut self, c: &str) -> bool {
+        let oid = self.some_oid(c);
+        match self.profile {
+            1 if self.rng.chance(1, 2) => {
+                match self.rng.below(20) {
+                    0..=2 => {
+                        // the policy object is installed again (what every AddCluster of an existing cluster does)
+                        // - between two rounds of keyed selections over an unchanged eligible set
+                        let (p, m) = self.installed.get(c).copied().unwrap_or(("maglev", "conns"));
+                        self.do_keyed_all(c);
+                        self.do_set_policy(c, p, m);
+                        self.do_keyed_all(c);
+                    }
+                    3..=5 => match oid {
+                        Some(o) => { let up = self.rng.chance(1, 2); self.do_health(c, o, up) }
+                        None => self.do_add(c),
+                    },
+                    _ => return false, // a keyed selection (the caller turns the draw into one)
+                }
+                true
+            }
+            3 if self.rng.chance(3, 4) => {
+                match self.rng.below(20) {
+                    0..=6 => match oid {
+                        Some(o) => self.do_fail(c, o),
+                        None => self.do_add(c),
+                    },
+                    7..=11 => {
+                        // mostly just as long as a window that is open lasts (streaks), sometimes anything
+                        let waiting = self.waiting(c);
+                        let d = if !waiting.is_empty() && self.rng.chance(2, 3) { self.rng.pick(&waiting).1 } else { *self.rng.pick(&ELAPSES) };
+                        self.do_elapse(d);
+                    }
+                    12..=13 => {
+                        if let Some(o) = oid {
+                            self.w.retry_succeed(c, o);
+                            self.log(c, json!({"ev":"RetrySucceed","oid":o}));
+                        }
+                    }
+                    14..=17 => {
+                        let sticky = if self.rng.chance(1, 3) { *self.rng.pick(&STICKIES) } else { "" };
+                        let (res, o, addr) = self.w.connect(c, sticky);
+                        self.log(c, json!({"ev":"Connect","sticky":sticky,"res":res,"oid":o,"addr":addr}));
+                    }
+                    _ => {
+                        let k = self.rng.below(self.keys.len() as u64 + 1) as usize;
+                        let key = if k == 0 { None } else { Some(self.keys[k - 1]) };
+                        let o = self.w.keyed(c, key);
+                        self.log(c, json!({"ev":"Keyed","key": if k == 0 { NONE } else { k as i64 },"oid":o}));
+                    }
+                }
+                true
+            }
+            _ => false,
+        }
+    }
+
     fn pick_policy(&mut self) -> &'static str {
         match self.profile {
             1 => *self.rng.pick(&["hrw", "maglev"]),
@@ -82,8 +197,11 @@ impl Run {
         self.cur = c.to_string();
         let mut r = self.rng.below(100);
         // the special profiles redirect part of the draws to the operations they are about
+        if self.special_step(c) {
+            return;
+        }
         if self.profile == 1 && self.rng.chance(1, 2) {
-            r = if (16..=20).contains(&r) || self.rng.chance(1, 2) { 90 } else { r };
+            r = if self.rng.chance(1, 2) { 90 } else { r };
         } else if self.profile == 2 && self.rng.chance(1, 3) {
             r = if self.rng.chance(2, 3) { 70 } else { 55 };
         }
@@ -98,15 +216,12 @@ impl Run {
             16..=20 => {
                 let p = self.pick_policy();
                 let m = if self.rng.chance(1, 2) { "conns" } else { "reqs" };
-                self.w.set_policy(c, p, m);
-                self.log(c, json!({"ev":"SetPolicy","policy":p,"metric":m}));
+                self.do_set_policy(c, p, m);
             }
             21..=32 => match oid {
                 Some(o) => {
                     let up = self.rng.chance(2, 5);
-                    let th = if up { self.th_up } else { self.th_down };
-                    let ret = self.w.health(c, o, up, th);
-                    self.log(c, json!({"ev":"Health","oid":o,"up":up,"th":th,"ret":ret}));
+                    self.do_health(c, o, up);
                 }
                 None => self.do_add(c),
             },
@@ -115,10 +230,7 @@ impl Run {
                 self.log(c, json!({"ev":"ResetHealth"}));
             }
             34..=39 => match oid {
-                Some(o) => {
-                    self.w.retry_fail(c, o);
-                    self.log(c, json!({"ev":"RetryFail","oid":o}));
-                }
+                Some(o) => self.do_fail(c, o),
                 None => self.do_add(c),
             },
             40..=42 => {
@@ -128,14 +240,10 @@ impl Run {
                 }
             }
             43..=47 => {
-                // end the window of a backend that is inside one
-                let waiting: Vec<i64> = self.w.project(c, HCAP)["objs"].as_array().unwrap().iter()
-                    .filter(|b| b["wait"].as_bool().unwrap()).map(|b| b["oid"].as_i64().unwrap()).collect();
-                if !waiting.is_empty() {
-                    let o = *self.rng.pick(&waiting);
-                    self.w.elapse(c, o);
-                    self.log(c, json!({"ev":"Elapse","oid":o}));
-                }
+                // time passes (for both clusters): often just enough to end a window that is open
+                let waiting = self.waiting(c);
+                let d = if !waiting.is_empty() && self.rng.chance(1, 2) { self.rng.pick(&waiting).1 } else { *self.rng.pick(&ELAPSES) };
+                self.do_elapse(d);
             }
             48..=49 => {
                 if let Some(o) = oid {
@@ -187,6 +295,60 @@ impl Run {
     }
 }
 
+/// one run: the recorded events per cluster and, if sozu panicked, the violation record
+fn one_run(seed: u64, run: u64, steps: u64) -> (Run, Option<Value>) {
+    let mut rng = Rng(seed.wrapping_mul(0x1000_0000_01B3).wrapping_add(run));
+    let variant = rng.next();
+    let unreachable = if rng.chance(1, 3) { 1 + rng.below(4) as usize } else { 0 };
+    let keys = vec![rng.next(), rng.next(), *rng.pick(&[0u64, u64::MAX, 65537, 65536, 1])];
+    let profile = [0, 0, 0, 1, 1, 2, 3, 3][rng.below(8) as usize];
+    let mut w = World::new(addr_table(4, variant, unreachable));
+    w.age_cap = AGE_CAP;
+    let mut r = Run {
+        profile,
+        installed: BTreeMap::new(),
+        cur: "c1".to_string(),
+        w,
+        th_up: 1 + rng.below(3) as u32,
+        th_down: 1 + rng.below(3) as u32,
+        rng,
+        keys,
+        ev: BTreeMap::new(),
+        stats: BTreeMap::new(),
+    };
+    let outcome = catch_unwind(AssertUnwindSafe(|| {
+        for c in ["c1", "c2"] {
+            r.cur = c.to_string();
+            if r.profile != 0 || r.rng.chance(4, 5) {
+                let p = r.pick_policy();
+                let m = if r.rng.chance(1, 2) { "conns" } else { "reqs" };
+                r.do_set_policy(c, p, m);
+            }
+            let n = if r.profile == 1 { 3 + r.rng.below(2) } else { 1 + r.rng.below(3) };
+            for _ in 0..n {
+                r.do_add(c);
+            }
+        }
+        for _ in 0..steps {
+            let c = if r.rng.chance(2, 3) { "c1" } else { "c2" };
+            r.step(c);
+        }
+    }));
+    let mut violation = None;
+    if let Err(p) = outcome {
+        let msg = vh::util::panic_message(p);
+        // replay file: the recorded history of the cluster the panicking step worked on, then the panic itself
+        // (Trace_Backends.tla explains no `Panic` event, so the file is rejected exactly there)
+        let mut events = vec![json!({"ev":"reset","run":run,"cl":r.cur})];
+        events.extend(r.ev.get(&r.cur).cloned().unwrap_or_default());
+        events.push(json!({"ev":"Panic","panic":msg}));
+        let labels: Vec<Value> = events.iter().rev().take(12).rev().map(|e| { let mut e = e.clone(); e.as_object_mut().unwrap().remove("post"); e }).collect();
+        violation = Some(json!({"kind":"violation","class":"panic","detail":{"run":run,"seed":seed,"cluster":r.cur,"panic":msg,
+            "note":"sozu panicked during the step after the last recorded event","last_events":labels},"events":events}));
+    }
+    (r, violation)
+}
+
 fn main() {
     vh::util::quiet_panics();
     vh::c12kit::quiet_logs();
@@ -200,58 +362,43 @@ fn main() {
     let mut connect_fail = 0u64;
     let mut samples = Vec::new();
     let mut traces = 0u64;
+    let slack = std::time::Duration::from_millis(arg("--slack-ms", "400").parse().unwrap_or(400));
+    let mut profiles: BTreeMap<String, u64> = BTreeMap::new();
+    let mut max_tries_seen = 0u64;
+    let mut max_window_seen = 0u64;
 
+    let mut slow_runs = 0u64;
+    let mut slow_attempts = 0u64;
     for run in 0..runs {
-        let mut rng = Rng(seed.wrapping_mul(0x1000_0000_01B3).wrapping_add(run));
-        let variant = rng.next();
-        let unreachable = if rng.chance(1, 3) { 1 + rng.below(4) as usize } else { 0 };
-        let keys = vec![rng.next(), rng.next(), *rng.pick(&[0u64, u64::MAX, 65537, 65536, 1])];
-        let profile = rng.below(4) % 3; // 0 twice as often
-        let mut r = Run {
-            profile,
-            cur: "c1".to_string(),
-            w: World::new(addr_table(4, variant, unreachable)),
-            th_up: 1 + rng.below(3) as u32,
-            th_down: 1 + rng.below(3) as u32,
-            rng,
-            keys,
-            ev: BTreeMap::new(),
-            stats: BTreeMap::new(),
+        // real time adds to every back-off age: only a run that fits into the slack is recorded
+        let mut done = None;
+        for _attempt in 0..3 {
+            let t0 = std::time::Instant::now();
+            let (r, violation) = one_run(seed, run, steps);
+            if t0.elapsed() <= slack {
+                done = Some((r, violation));
+                break;
+            }
+            slow_attempts += 1;
+        }
+        let Some((r, violation)) = done else {
+            slow_runs += 1;
+            continue;
         };
-        let outcome = catch_unwind(AssertUnwindSafe(|| {
-            for c in ["c1", "c2"] {
-                r.cur = c.to_string();
-                if r.profile != 0 || r.rng.chance(4, 5) {
-                    let p = r.pick_policy();
-                    let m = if r.rng.chance(1, 2) { "conns" } else { "reqs" };
-                    r.w.set_policy(c, p, m);
-                    r.log(c, json!({"ev":"SetPolicy","policy":p,"metric":m}));
-                }
-                for _ in 0..(1 + r.rng.below(3)) {
-                    r.do_add(c);
-                }
-            }
-            for _ in 0..steps {
-                let c = if r.rng.chance(2, 3) { "c1" } else { "c2" };
-                r.step(c);
-            }
-        }));
-        if let Err(p) = outcome {
-            let msg = vh::util::panic_message(p);
-            // replay file: the recorded history of the cluster the panicking step worked on, then the panic itself
-            // (Trace_Backends.tla explains no `Panic` event, so the file is rejected exactly there)
-            let mut events = vec![json!({"ev":"reset","run":run,"cl":r.cur})];
-            events.extend(r.ev.get(&r.cur).cloned().unwrap_or_default());
-            events.push(json!({"ev":"Panic","panic":msg}));
-            let labels: Vec<Value> = events.iter().rev().take(12).rev().map(|e| { let mut e = e.clone(); e.as_object_mut().unwrap().remove("post"); e }).collect();
-            vh::util::emit(&json!({"kind":"violation","class":"panic","detail":{"run":run,"seed":seed,"cluster":r.cur,"panic":msg,
-                "note":"sozu panicked during the step after the last recorded event","last_events":labels},"events":events}));
+        if let Some(v) = violation {
+            vh::util::emit(&v);
         }
         for (c, evs) in &r.ev {
             writeln!(out, "{}", json!({"ev":"reset","run":run,"cl":c})).unwrap();
             for e in evs {
                 if e["ev"] == "Connect" && e["res"] == "fail" {
                     connect_fail += 1;
+                }
+                if e["ev"] == "RetryFail" || (e["ev"] == "Connect" && e["res"] == "fail") {
+                    for o in e["post"]["objs"].as_array().unwrap() {
+                        max_tries_seen = max_tries_seen.max(o["tries"].as_u64().unwrap_or(0));
+                        max_window_seen = max_window_seen.max(o["wsec"].as_u64().unwrap_or(0));
+                    }
                 }
                 writeln!(out, "{}", e).unwrap();
             }
@@ -261,6 +408,7 @@ fn main() {
         for (k, v) in &r.stats {
             *stats.entry(k.clone()).or_default() += v;
         }
+        *profiles.entry(r.profile.to_string()).or_default() += 1;
         if run < 2 {
             let s: Vec<String> = r.ev.get("c1").map(|v| v.iter().take(8).map(|e| {
                 let mut e = e.clone(); e.as_object_mut().unwrap().remove("post"); e.to_string() }).collect()).unwrap_or_default();
@@ -269,5 +417,6 @@ fn main() {
     }
     out.flush().unwrap();
     vh::util::emit(&json!({"kind":"summary","runs":runs,"traces":traces,"events":total,"by_action":stats,
-        "connect_fail":connect_fail,"samples":samples}));
+        "connect_fail":connect_fail,"slow_runs":slow_runs,"slow_attempts":slow_attempts,"runs_by_profile":profiles,
+        "max_tries_seen":max_tries_seen,"max_window_seen":max_window_seen,"samples":samples}));
 }
